@@ -148,6 +148,25 @@ pub(crate) mod prelude {
             result
         }
     }
+
+    #[cfg(toml_verif)]
+    #[cfg(not(feature = "unbounded"))]
+    impl RecursionCheck {
+        // Add-only accessors for `crate::verif_hooks`
+        pub(crate) const VERIF_LIMIT: usize = LIMIT;
+        pub(crate) fn verif_with_current(current: usize) -> Self {
+            Self { current }
+        }
+        pub(crate) fn verif_current(&self) -> usize {
+            self.current
+        }
+        pub(crate) fn verif_enter(&mut self) -> bool {
+            self.enter().is_ok()
+        }
+        pub(crate) fn verif_exit(&mut self) {
+            self.exit();
+        }
+    }
 }
 
 #[cfg(test)]
